@@ -716,6 +716,10 @@ func (p *Proxy) connect(req *http.Request) (*http.Response, net.Conn, error) {
 			// downstream proxy sends no Content-Length with it: everything after
 			// the header is tunnel data, part of which pbr may already hold.
 			res.Body = http.NoBody
+			// Framing it announces all the same is to be ignored: passed on, a
+			// Transfer-Encoding would put the end of a chunked body in front of
+			// the tunnel's bytes.
+			res.TransferEncoding = nil
 			return res, &peekedConn{conn, pbr}, nil
 		}
 
